@@ -137,3 +137,39 @@ def run(ctx):
         okv = fid in cu or m.fn(fid).key in cu
         ctx.ob("V2.CONFLICT-WIRED", e, okv, "first-writer check reached" if okv else
                "%s never consults the first-writer check: two transactions that modify the same row both commit (lost update)" % e, m.fn(fid).loc())
+    commit_ts_decides_visibility(ctx)
+
+
+def commit_ts_decides_visibility(ctx):
+    """V3 COMMIT-TS-VISIBILITY: a version written by a transaction that is still marked (lock bit) becomes visible to a reader
+    according to the writer's *commit* timestamp from the commit log, not its start timestamp: a writer that began before the reader's
+    snapshot but committed after it must stay invisible.  In RecordHeader::is_visible_with_clog the value compared with read_ts
+    depends on the payload the commit-log callback returned."""
+    import dmlrules
+    m = ctx.m
+    fs = [f for f in m.fns.values() if f.kind != "closure" and f.id.endswith("RecordHeader>::is_visible_with_clog")]
+    if len(fs) != 1:
+        raise CheckError("is_visible_with_clog: %d candidates" % len(fs))
+    f = fs[0]
+    cb = [c for c in f.calls if any(x in (c.name + " " + c.full) for x in ("ops::Fn<", "ops::FnOnce<", "ops::FnMut<", "ops::Fn::call", "ops::FnOnce::call_once", "ops::FnMut::call_mut"))
+          and c.dest is not None]
+    if not cb:
+        raise CheckError("is_visible_with_clog: commit-log callback call not found")
+    cbd = {c.dest[0] for c in cb}
+    ok = False
+    for b in f.blocks:
+        for s in b["s"]:
+            if s[0] == "=" and s[2][0] == "bin" and s[2][1] in ("Gt", "Ge", "Lt", "Le"):
+                sides = [operand_place(s[2][2]), operand_place(s[2][3])]
+                if any(q is None for q in sides):
+                    continue
+                roots = [dmlrules._deps(f, q[0]) for q in sides]
+                with_read_ts = [i for i, r in enumerate(roots) if 2 in r]
+                for i in with_read_ts:
+                    other = roots[1 - i]
+                    if other & cbd:
+                        ok = True
+    ctx.ob("V3.COMMIT-TS-VISIBILITY", "is_visible_with_clog", ok, "read_ts is compared with a timestamp that depends on the commit log's answer" if ok else
+           "is_visible_with_clog never compares read_ts with the commit timestamp the commit log returns (the callback's result is only tested "
+           "for presence): a writer that started before the reader's BEGIN and committed after it becomes visible in the middle of the reader's "
+           "transaction", f.loc())
